@@ -222,7 +222,7 @@ inductive R (α : Type)
   | err (e : ErrKind) (c : Ctx)
   | stuck (x : Stuck)
 
-def M (α : Type) := Ctx → R α
+abbrev M (α : Type) := Ctx → R α
 
 @[inline] def M.pure (a : α) : M α := fun c => .ok a c
 @[inline] def M.bind (m : M α) (f : α → M β) : M β := fun c =>
